@@ -33,6 +33,8 @@ func idxC(like Term, i int) Term {
 
 type pathEnd struct{ why string }
 
+var debugDecisions = os.Getenv("DECISIONS") != ""
+
 var noopPackages = map[string]bool{"log/slog": true, "log": true}
 
 type Finding struct {
@@ -234,6 +236,13 @@ func (e *Exec) decide(cond Term) bool {
 	}
 	e.branches++
 	e.symDecisions++
+	if debugDecisions && len(e.fnStack) > 0 {
+		c := cond.S
+		if len(c) > 90 {
+			c = c[:90]
+		}
+		fmt.Printf("DECIDE in %s: %s\n", e.fnStack[len(e.fnStack)-1].Name(), c)
+	}
 	pos := len(e.decisions)
 	if pos < len(e.prefix) {
 		d := e.prefix[pos]
@@ -837,6 +846,9 @@ func (e *Exec) eval(fr *frame, in ssa.Value) Value {
 		if !l.Const || !c.Const {
 			// concretise a symbolic size by forking over 0..bound; larger sizes are outside the bound
 			same := in.Len == in.Cap
+			// allocation size depends on input: it must stay within the harness's bound
+			// (memory proportional to the input, not to a length claimed inside it)
+			e.oblige(And(tLe(i64(0), l), tLe(l, i64(e.makeSliceMax))), "panic", "allocation size bounded by the input size in "+fr.fn.String())
 			found := false
 			for k := 0; k <= e.makeSliceMax; k++ {
 				if e.decide(Eq(l, idxC(l, k))) {
